@@ -17,7 +17,7 @@ static int w_ptr0, w_ptr1;
 static void w_resolved(int type, unsigned n, _Bool found)
 {
 	memset(&w_cfg, 0, sizeof w_cfg); memset(&w_opt, 0, sizeof w_opt);
-	w_cfg.name = "root";
+	w_cfg.name = "root"; w_cfg.flags = nondet_int();      /* whatever the context flags: the wrappers do not look at them */
 	w_opt.name = "o"; w_opt.type = type; w_opt.nvalues = n; w_opt.values = n ? w_vals : NULL; w_opt.comment = nondet_bool() ? w_comment : NULL;
 	w_vals[0] = &w_v0; w_vals[1] = &w_v1;
 	if (type == CFGT_INT) { w_v0.number = nondet_long(); w_v1.number = nondet_long(); }
@@ -87,7 +87,7 @@ void h_wrap_setters(void)
 	FRESH(); CHECK("C09,C07", cfg_rmnsec(&w_cfg, w_name, idx) == ret && RESOLVED_ONCE && g_w_calls == 1 && g_w_kind == 6 && g_w_opt == o && g_w_index == idx, "cfg_rmnsec(cfg, name, i) removes instance i of the resolved section option and hands the verdict back");
 	FRESH(); CHECK("C09,C07", cfg_rmtsec(&w_cfg, w_name, w_t0) == ret && RESOLVED_ONCE && g_w_calls == 1 && g_w_kind == 7 && g_w_opt == o && g_w_str == w_t0, "cfg_rmtsec(cfg, name, title) removes the titled instance of the resolved section option and hands the verdict back");
 	g_w_pf_ret = nondet_bool() ? cfgv_pf2 : NULL;
-	FRESH(); CHECK("C19", cfg_set_print_func(&w_cfg, w_name, cfgv_pf2) == g_w_pf_ret && RESOLVED_ONCE && g_w_calls == 1 && g_w_kind == 9 && g_w_opt == o && g_w_pf == cfgv_pf2, "cfg_set_print_func(cfg, name, pf) installs pf on the resolved option and returns the previous callback");
+	FRESH(); CHECK("C19,C16", cfg_set_print_func(&w_cfg, w_name, cfgv_pf2) == g_w_pf_ret && RESOLVED_ONCE && g_w_calls == 1 && g_w_kind == 9 && g_w_opt == o && g_w_pf == cfgv_pf2, "cfg_set_print_func(cfg, name, pf) installs pf on the resolved option and returns the previous callback");
 	/* the validating by-name setters with a second-generation validator: asked once, with this context and option, before the store; its refusal is final */
 	if (found) {
 		w_opt.validcb2 = cfgv_vcb2; cfgv_vcb2_verdict = nondet_bool() ? 0 : nondet_int(); cfgv_vcb2_calls = 0;
